@@ -134,7 +134,7 @@ def whyClosed (g : Graph) (pre : List Ev) (t : Nat) : String :=
       | some (.spawn _) => "closed-before-nested-task"
       | some (.try_ y) =>
         if ¬ hasDone pre (g.tryd y).body then "closed-before-try-body"
-        else if (g.handlers y).any (fun h => decide ((Ev.cmd h 0 ∈ pre ∨ (Ev.hacc h ∈ pre ∧ ¬ acceptedAfterCause g pre h)) ∧ ¬ hasDone pre h)) then "closed-before-handler"
+        else if (g.handlers y).any (fun h => decide ((Ev.cmd h 0 ∈ pre ∨ Ev.hacc h ∈ pre) ∧ ¬ hasDone pre h)) then "closed-before-handler"
         else if (selected g pre y).any (fun h => decide (¬ handlerFate g pre y h ∧ Ev.hacc h ∈ pre)) then "selected-handler-never-ran"
         else "selected-handler-never-submitted"
       | _ => "closed-before-children"
@@ -184,20 +184,6 @@ def why (g : Graph) (pre : List Ev) : Ev → String
   | .stall t =>
     if ¬ isHandler g t then "stall-of-non-handler"
     else "handler-start-stalled-without-prior-cause"
-
-/-! ### Finding KF-C16-1 (classification only, unverified)
-
-A handler that the task manager accepted into a context that had already failed (`acceptedAfterCause`)
-runs detached from its owner (`scope.NewChild` does not register a child of a done scope): the owner
-closes without waiting for it, and when the detached task closes later its events bubble into scopes
-that are already closed — a nil dereference in a bare goroutine, i.e. a `panic` line.  (The `done h`
-event is the close of the runner's child context; the task scope itself closes a little later, so the
-order of the `done` events does not tell whether the crash is due.)  A `panic` in a trace in which some
-handler was accepted into an already failed context is reported under that name. -/
-
-def detachedHandler (g : Graph) (evs : List Ev) : Bool :=
-  (List.range g.tries.length).any fun y =>
-    (g.handlers y).any fun h => decide (acceptedAfterCause g evs h)
 
 /-! ### Steering policy of a case (`steer=` on the graph line) -/
 
@@ -287,8 +273,7 @@ def verdict (c : Case) : List String :=
       | none =>
         match c.bad with
         | some (bseq, msg) =>
-          if msg == "panic" && detachedHandler g evs then s!"reject {bseq} panic-after-detached-handler"
-          else s!"reject {bseq} {msg}"
+          s!"reject {bseq} {msg}"
         | none =>
           if evs.any (fun e => match e with | .root _ => true | _ => false) then "accept"
           else s!"reject {c.lastSeq + 1} trace-incomplete"
